@@ -167,6 +167,19 @@ func c01Check(ctx *vfCtx, c c01Case) {
 		ctx.Fail("C01/not-canonical"+cause, "CanonicalJSON(%q) = %q, canonical form is %q", text, out, want)
 		return
 	}
+	// the result belongs to the caller: later canonicalisations of other texts do not change it
+	kept := string(out)
+	if vfCatch(ctx, "C01", func() {
+		_, _ = CanonicalJSON([]byte(`[7,"another text, canonicalised after the first result was returned",-0,[{"b":1,"a":2}]]`))
+		_, _ = CanonicalJSON([]byte(`"x"`))
+		_ = CanonicalJSONAssumeValid([]byte(`{"k":[1,2,3],"a":"` + strings.Repeat("z", len(out)+8) + `"}`))
+	}) {
+		return
+	}
+	if string(out) != kept {
+		ctx.Fail("C01/result-overwritten-by-later-call", "CanonicalJSON(%q) returned %q; after canonicalising other texts the same slice reads %q", text, kept, out)
+		return
+	}
 	var again []byte
 	if vfCatch(ctx, "C01", func() { again, err = CanonicalJSON(append([]byte(nil), out...)) }) {
 		return
